@@ -7,6 +7,7 @@ import CrCube.Lemmas.ValFacts
 import CrCube.Model.SliceApi
 import CrCube.Props.C01
 import CrCube.Props.C02
+import CrCube.Lemmas.Swap
 
 set_option linter.unusedSimpArgs false
 
@@ -110,5 +111,63 @@ theorem row_props_sum_one (R C : Var) (hR : R.CM) (hC : C.kind = .cat) (s : Surv
   unfold cnt base Dir.modes at *
   rw [hsum]
   exact div_self hb
+
+/-- Along a categorical rows dimension the column proportions of ALL base elements sum to 1
+    whenever the column base is positive. -/
+theorem col_props_sum_one (R C : Var) (hR : R.kind = .cat) (hC : C.CM) (s : Survey)
+    (hw : WeightsNonneg s) (j : Nat) (hj : j < C.ext)
+    (hb : base .col R C s 0 j ≠ 0) :
+    vsum R.ext (fun i => prop .col (sliceCounts [R, C] (cubeOf [R, C] s) 0) i j) = .fin 1 := by
+  have hRM : R.CM := Or.inl hR
+  have hbase : ∀ i, base .col R C s i j = base .col R C s 0 j := by
+    intro i
+    unfold base Dir.modes
+    rw [← col_counts_sum_to_base R C hR hC s j i, ← col_counts_sum_to_base R C hR hC s j 0]
+  have step : ∀ i, i < R.ext →
+      prop .col (sliceCounts [R, C] (cubeOf [R, C] s) 0) i j
+        = .fin (cnt R C s i j / base .col R C s 0 j) := by
+    intro i hi
+    rw [prop_spec .col R C hRM hC s hw i j hi hj, hbase i]
+    simp [hb]
+  rw [vsum_congr _ _ _ step, vsum_fin]
+  congr 1
+  have hsum := col_counts_sum_to_base R C hR hC s j 0
+  have : ((List.range R.ext).map fun i => cnt R C s i j / base .col R C s 0 j).sum
+      = ((List.range R.ext).map fun i => cnt R C s i j).sum / base .col R C s 0 j := by
+    generalize List.range R.ext = L
+    induction L with
+    | nil => simp
+    | cons x L ih => simp only [List.map_cons, List.sum_cons, ih]; ring
+  rw [this]
+  unfold cnt base Dir.modes at *
+  rw [hsum]
+  exact div_self hb
+
+/-- margin proportions: with categorical columns the rows margin proportion is the row's total
+    count over the row's table base; across an array (MR / CA) columns dimension it falls back to
+    the per-cell row base over the per-cell table base -/
+theorem rowsMarginProportion_def (ck : DK) (m : MatCounts) :
+    m.rowsMarginProportion ck =
+      if ck = .cat then
+        (match m.rowsTableBase with
+          | some tb => .vec (tab1 m.nrows (fun i => vsum m.ncols (fun j => m.counts i j) / tb i))
+          | none => .vec [])
+      else .mat (m.mat (fun i j => m.rowBases i j / m.tableBases i j)) := rfl
+
+theorem columnsMarginProportion_def (rk : DK) (m : MatCounts) :
+    m.columnsMarginProportion rk =
+      if rk = .cat then
+        (match m.columnsTableBase with
+          | some tb => .vec (tab1 m.ncols (fun j => vsum m.nrows (fun i => m.counts i j) / tb j))
+          | none => .vec [])
+      else .mat (m.mat (fun i j => m.columnBases i j / m.tableBases i j)) := rfl
+
+/-- every extractor class with categorical columns does define the rows table base (so the
+    `none` branch above is unreachable), and symmetrically -/
+theorem rowsTableBase_defined (rk : DK) (c : FT) : (MatCounts.factory rk .cat c).rowsTableBase.isSome = true := by
+  cases rk <;> rfl
+
+theorem columnsTableBase_defined (ck : DK) (c : FT) : (MatCounts.factory .cat ck c).columnsTableBase.isSome = true := by
+  cases ck <;> rfl
 
 end CrCube.C03
